@@ -28,6 +28,7 @@ def plan(seed, subbatch):
     base_s, tf, tf_s = planlib.base_and_tf(cfg, 1.0, 12.0, allow_finer=False)
     n = planlib.pick_n(cfg, (2, 12), (5, 50), (20, 160))
     route = cfg.choice(ROUTES)
+    mega = False
     # gaps are the point of the property: the calm batch has drops only (regular grid otherwise)
     if subbatch == "calm":
         per_bucket = max(1, tf_s // base_s)
@@ -37,7 +38,13 @@ def plan(seed, subbatch):
         faults, burst, p_empty, kinds = planlib.swarm_faults(
             cfg, base_s, tf_s, halt_buckets=(5, 40), force=[cfg.choice(("drop", "halt"))])
         recoll = cfg.randint(1, 3) if cfg.random() < 0.4 else 0
-        if cfg.random() < 0.12:
+        if cfg.random() < (0.02 if planlib.thorough() else 0.004):
+            # a rare outage of tens of thousands of buckets (weeks of one-minute candles) in a tiny stream
+            per_bucket = max(1, tf_s // base_s)
+            n = cfg.randint(3, 6)
+            faults = {"halt": {"p": 0.3, "min": 21000 * per_bucket, "max": 45000 * per_bucket}}
+            mega = True
+        elif cfg.random() < 0.12:
             # one very long outage in a short stream: several hundred inserted candles
             per_bucket = max(1, tf_s // base_s)
             n = cfg.randint(4, 25)
@@ -49,7 +56,7 @@ def plan(seed, subbatch):
     if subbatch == "faulty" and cfg.random() < 0.4:
         regimes = world.REGIMES_NORMAL + ["zerovol", "stall0", "stall"]
     pre, ops, fired, rows = planlib.stream_and_schedule(seed, subbatch, n, base_s, start, faults, burst,
-                                                        p_empty, extras, max_span_s=1500 * tf_s, regimes=regimes,
+                                                        p_empty, extras, max_span_s=(100000 if mega else 1500) * tf_s, regimes=regimes,
                                                         regime_len=(1, 12))
     lifespan = None
     if subbatch == "faulty" and cfg.random() < 0.3:
